@@ -5,8 +5,9 @@ from pysym.harness import run_cases
 
 LEVEL = 'exploration'
 DEDUCTIVE = [('contracts.hashes', ('Fingerprints', 'CANARY')), ('contracts.fingerprints', None)]          # (contract module, case-name filter) run by engine P
-FINISH = dict(rule='see checks/b17.py RULE / run.bound entries', explanation='bounded stand-in (engine B) of the contracts of DESIGN §2 C17; '
-              'labelled bounded, never counted as proved', trusted_base=['CPython 3.12', 'oracles/*', 'RDKit where stated'])
+FINISH = dict(rule='deductive: one obligation per path / table key; B: see run.bound entries of checks/b17.py',
+              explanation='P: folded indices are exactly the number_active_bits lowest log2(length)-bit windows of every 64-bit hash (lengths 2^1..2^20, active bits 1..8), identifiers hash exactly (isotope|0, Z, charge, radical); B: path sets, iterated hashing, invariance under renumbering',
+              trusted_base=['CPython', 'z3', 'pysym', 'oracles/o17_ref.py'])
 replay = make_replay('C17')
 
 
